@@ -213,6 +213,11 @@ R = lambda a, b: C("RTwo", C("ANum", Nat(a)), C("ANum", Nat(b)))
 # inputs on which the pinned tree differed from the reference (each repaired by a fix: commit) and the probe of the known finding
 CORPUS = [
     fixed("foo", [C("ESub", C("RDefault"), lit("foo"), "bar", False)], ":s/foo/bar/<CR>", ["silent! s/\\vfoo/bar/"]),
+    # the same pattern twice, with another replacement and another flag: each :s is what was typed for it
+    fixed("na na\nna na\nna\nna na\n", [C("ESub", C("ROne_", C("ANum", Nat(1))), lit("na"), "X", False), C("ESub", R(2, 4), lit("na"), "Y", True)],
+          ":1s/na/X/<CR>:2,4s/na/Y/g<CR>", ["silent! 1s/\\vna/X/", "silent! 2,4s/\\vna/Y/g"]),
+    fixed("ab ab\nab ab\n", [C("ESub", C("RAll"), lit("ab"), "1", True), C("ESub", C("RAll"), lit("1"), "ab", False), C("ESub", C("RAll"), lit("1"), "z", True)],
+          ":%s/ab/1/g<CR>:%s/1/ab/<CR>:%s/1/z/g<CR>", ["silent! %s/\\vab/1/g", "silent! %s/\\v1/ab/", "silent! %s/\\v1/z/g"]),
     fixed("éa éa\nzéa\n", [C("ESub", C("RAll"), lit("a"), "ü", True)], ":%s/a/ü/g<CR>", ["silent! %s/\\va/ü/g"]),
     fixed("a\nb\nc\nd\n", [C("EDel", C("ROne_", C("ALast")))], ":$d<CR>", ["silent! $d"]),
     fixed("a\nb\nc\nd\n", [C("EGlobal", False, R(1, 3), C("mkRe", False, [C("ROne", C("AClass", False, [(97, 97), (99, 99)]))], False), C("GDel"))], ":1,3g/[ac]/d<CR>", ["silent! 1,3g/\\v[ac]/d"]),
